@@ -45,13 +45,39 @@ pub fn act(a: u8) -> Act {
     }
 }
 
-pub fn render(h: &[u8]) -> String {
+/// Second alphabet (pattern "a second/third instance", "both sides of a limit"): three keys with
+/// gaps, so a Vec-backed map is extended by 0, 1 and several slots. 0..12 = insert(k, v, Local|Global)
+/// for k in {0,2,5}, v in {0,1}; 12 = begin_group; 13 = end_group.
+pub fn act3(a: u8) -> Act {
+    match a {
+        0..=11 => Act::Ins { k: [0usize, 2, 5][(a >> 2) as usize], v: (a >> 1) & 1, global: a & 1 == 1 },
+        12 => Act::Begin,
+        _ => Act::End,
+    }
+}
+
+/// An action alphabet plus the way the container is created: `init` empty = `Default`, otherwise
+/// `FromIterator<(K, V)>` on these pairs (a later pair for the same key wins).
+#[derive(Clone, Copy)]
+pub struct Alpha {
+    pub n: usize,
+    pub dec: fn(u8) -> Act,
+    pub init: &'static [(usize, u8)],
+}
+pub const A2: Alpha = Alpha { n: N_ACT, dec: act, init: &[] };
+pub const A3: Alpha = Alpha { n: 14, dec: act3, init: &[] };
+pub const INITS: [&[(usize, u8)]; 4] = [&[(0, 1)], &[(0, 0), (0, 1)], &[(1, 1), (0, 0)], &[(5, 1)]];
+
+pub fn render(h: &[u8], al: &Alpha) -> String {
     let mut s = String::new();
+    if !al.init.is_empty() {
+        s.push_str(&format!("from_iter({:?})", al.init));
+    }
     for (i, a) in h.iter().enumerate() {
-        if i > 0 {
+        if i > 0 || !al.init.is_empty() {
             s.push(' ');
         }
-        match act(*a) {
+        match (al.dec)(*a) {
             Act::Ins { k, v, global } => s.push_str(&format!("{}{}={}", if global { "G" } else { "L" }, k, v)),
             Act::Begin => s.push('{'),
             Act::End => s.push('}'),
@@ -64,7 +90,7 @@ pub fn render(h: &[u8]) -> String {
 #[derive(Clone, PartialEq, Eq, Debug, Hash)]
 pub struct Vis {
     pub items: Vec<(usize, u8)>,
-    pub gets: [Option<u8>; 3],
+    pub gets: [Option<u8>; 7],
     pub len: usize,
     pub empty: bool,
 }
@@ -72,10 +98,18 @@ pub struct Vis {
 pub fn vis<T: Back>(c: &GC<T>) -> Vis {
     let mut items: Vec<(usize, u8)> = c.iter().map(|(k, v)| (k, *v)).collect();
     items.sort();
-    Vis { items, gets: [c.get(&0).copied(), c.get(&1).copied(), c.get(&2).copied()], len: c.len(), empty: c.is_empty() }
+    let mut gets = [None; 7];
+    for (k, g) in gets.iter_mut().enumerate() {
+        *g = c.get(&k).copied();
+    }
+    Vis { items, gets, len: c.len(), empty: c.is_empty() }
 }
 fn vis_of(map: &std::collections::BTreeMap<usize, u8>) -> Vis {
-    Vis { items: map.iter().map(|(k, v)| (*k, *v)).collect(), gets: [map.get(&0).copied(), map.get(&1).copied(), map.get(&2).copied()], len: map.len(), empty: map.is_empty() }
+    let mut gets = [None; 7];
+    for (k, g) in gets.iter_mut().enumerate() {
+        *g = map.get(&k).copied();
+    }
+    Vis { items: map.iter().map(|(k, v)| (*k, *v)).collect(), gets, len: map.len(), empty: map.is_empty() }
 }
 pub fn model_vis(m: &Model) -> Vis {
     vis_of(m.visible())
@@ -138,8 +172,9 @@ pub fn rebuild<T: Back>(items: &[Option<(usize, u8)>]) -> GC<T> {
         .iter()
         .map(|it| match it {
             None => Item::BeginGroup,
-            Some(kv) => Item::Value(*kv),
+            Some(kv) => Item::Value(kv),
         })
+        .map(Item::adapt_map(|kv: &(usize, u8)| *kv))
         .collect()
 }
 
@@ -154,8 +189,10 @@ fn count_collisions(a: Act, m: &Model, acc: &mut Acc, nontrivial: &mut bool) {
             } else {
                 if lv[d] != lv[d - 1] {
                     *nontrivial = true;
+                } else {
+                    acc.count("end_group_of_a_group_that_changed_nothing");
                 }
-                for k in 0..2usize {
+                for k in [0usize, 1, 2, 5] {
                     if d >= 2 && lv[d].get(&k) != lv[d - 1].get(&k) && lv[d - 1].get(&k) != lv[d - 2].get(&k) {
                         acc.count("end_group_restored_value_shadowed_twice");
                     }
@@ -165,9 +202,12 @@ fn count_collisions(a: Act, m: &Model, acc: &mut Acc, nontrivial: &mut bool) {
                 }
             }
         }
-        Act::Ins { k, global: true, .. } => {
+        Act::Ins { k, v, global: true } => {
             if d >= 1 {
                 *nontrivial = true;
+            }
+            if lv.iter().all(|l| l.get(&k) == Some(&v)) {
+                acc.count("insert_of_the_value_every_level_already_has");
             }
             if d >= 2 && m.shadow_depth(&k) >= 1 {
                 acc.count("global_insert_purged_saved_value_at_depth_ge_2");
@@ -176,9 +216,19 @@ fn count_collisions(a: Act, m: &Model, acc: &mut Acc, nontrivial: &mut bool) {
                 acc.count("global_insert_over_key_unknown_to_outermost_level");
             }
         }
-        Act::Ins { k, global: false, .. } => {
+        Act::Ins { k, v, global: false } => {
             if d >= 1 && lv[d].get(&k) != lv[d - 1].get(&k) {
                 acc.count("second_local_insert_of_key_in_same_group");
+            }
+            if lv[d].get(&k) == Some(&v) {
+                acc.count("local_insert_of_the_value_that_is_already_current");
+            }
+            // Vec-backed map: slots 0..=max key ever inserted exist
+            let slots = lv.iter().flat_map(|l| l.keys()).max().map(|m| m + 1).unwrap_or(0);
+            if k > slots {
+                acc.count("insert_beyond_the_end_leaving_a_gap");
+            } else if k == slots {
+                acc.count("insert_exactly_at_the_end");
             }
         }
         Act::Begin => {}
@@ -193,10 +243,15 @@ fn count_collisions(a: Act, m: &Model, acc: &mut Acc, nontrivial: &mut bool) {
 pub fn apply_both<T: Back>(c: &mut GC<T>, m: &mut Model, a: Act, pos: usize, ret_differs: &mut bool) -> Result<(), Mismatch> {
     match a {
         Act::Ins { k, v, global } => {
-            let got = c.insert(k, v, if global { Scope::Global } else { Scope::Local });
             let want = m.insert(k, v, if global { MScope::Global } else { MScope::Local });
-            if got != want {
-                *ret_differs = true;
+            if !global && pos % 2 == 1 {
+                // second public route to a local insert (odd positions of a history)
+                c.extend(std::iter::once((k, v)));
+            } else {
+                let got = c.insert(k, v, if global { Scope::Global } else { Scope::Local });
+                if got != want {
+                    *ret_differs = true;
+                }
             }
         }
         Act::Begin => {
@@ -263,11 +318,26 @@ pub fn init_fp() -> Fp {
 }
 
 /// Replay a history on a fresh real container and a fresh model, comparing after every step.
-fn reach<T: Back>(h: &[u8], mut count: Option<(&mut Acc, &mut bool)>, ret_differs: &mut bool) -> Result<(GC<T>, Model), Mismatch> {
-    let mut c = GC::<T>::default();
-    let mut m = Model::new();
+fn reach<T: Back>(h: &[u8], al: &Alpha, mut count: Option<(&mut Acc, &mut bool)>, ret_differs: &mut bool) -> Result<(GC<T>, Model), Mismatch> {
+    let (mut c, mut m) = if al.init.is_empty() {
+        (GC::<T>::default(), Model::new())
+    } else {
+        // FromIterator<(K, V)>: plain pairs go to the outermost level
+        let c: GC<T> = al.init.iter().copied().collect();
+        let m = Model::with_initial(al.init.iter().copied().collect());
+        let (g, w) = (vis(&c), model_vis(&m));
+        if g != w {
+            return Err(mismatch(format!("{w:?}"), format!("{g:?}"), format!("{}: visible contents after from_iter of plain pairs", T::NAME)));
+        }
+        (c, m)
+    };
     for (i, a) in h.iter().enumerate() {
-        let a = act(*a);
+        let a = (al.dec)(*a);
+        if !matches!(a, Act::Ins { global: true, .. } | Act::Begin | Act::End) && i % 2 == 1 {
+            if let Some((acc, _)) = count.as_mut() {
+                acc.count("local_insert_through_extend");
+            }
+        }
         if let Some((acc, nontrivial)) = count.as_mut() {
             count_collisions(a, &m, acc, nontrivial);
         }
@@ -290,14 +360,25 @@ fn unmerged_fp(h: &[u8]) -> Fp {
 /// One history on one backing container: step-by-step comparison with the model, drain, and the
 /// replay law at the state reached (visible values, `==`, iter_all and drain of the rebuilt
 /// container). Returns the fingerprint of the implementation state reached.
-pub fn check_history<T: Back>(h: &[u8], acc: &mut Acc) -> Result<Fp, Mismatch> {
+pub fn check_history<T: Back>(h: &[u8], al: &Alpha, acc: &mut Acc) -> Result<Fp, Mismatch> {
     let mut nontrivial = false;
     let mut ret_differs = false;
-    let (c, m) = reach::<T>(h, Some((acc, &mut nontrivial)), &mut ret_differs)?;
+    let (c, m) = reach::<T>(h, al, Some((acc, &mut nontrivial)), &mut ret_differs)?;
+    // a key whose value changes in two open groups that are not adjacent (nothing in between)
+    {
+        let lv = m.levels();
+        for k in [0usize, 1, 2, 5] {
+            let changed: Vec<usize> = (1..lv.len()).filter(|i| lv[*i].get(&k) != lv[*i - 1].get(&k)).collect();
+            if changed.windows(2).any(|w| w[1] - w[0] >= 2) {
+                acc.count("key_changed_in_two_nonadjacent_open_groups");
+                break;
+            }
+        }
+    }
     if nontrivial {
         acc.nontrivial();
     }
-    if h.iter().any(|a| *a < 8) {
+    if h.iter().enumerate().any(|(i, a)| matches!((al.dec)(*a), Act::Ins { global, .. } if global || i % 2 == 0)) {
         acc.class(if ret_differs { "gmap: some insert() returned something else than 'the key had a visible value' (recorded, not judged)" } else { "gmap: every insert() returned whether the key had a visible value" });
     }
     acc.traces_validated += 1;
@@ -354,15 +435,15 @@ pub fn check_history<T: Back>(h: &[u8], acc: &mut Acc) -> Result<Fp, Mismatch> {
 /// Replay law, second half, at the state reached by `h`: a container rebuilt from `iter_all()`
 /// behaves like the model under every continuation of length 1..=`cont` (return values and visible
 /// contents after every step, drain at the end).
-pub fn check_continuations<T: Back>(h: &[u8], cont: usize, acc: &mut Acc) -> Result<(), Mismatch> {
+pub fn check_continuations<T: Back>(h: &[u8], al: &Alpha, cont: usize, acc: &mut Acc) -> Result<(), Mismatch> {
     let mut ret_differs = false;
-    let (c, m) = reach::<T>(h, None, &mut ret_differs)?;
+    let (c, m) = reach::<T>(h, al, None, &mut ret_differs)?;
     let items = iter_all_items(&c);
     let mut conts: Vec<Vec<u8>> = vec![];
-    for a in 0..N_ACT as u8 {
+    for a in 0..al.n as u8 {
         conts.push(vec![a]);
         if cont > 1 {
-            for b in 0..N_ACT as u8 {
+            for b in 0..al.n as u8 {
                 conts.push(vec![a, b]);
             }
         }
@@ -371,14 +452,14 @@ pub fn check_continuations<T: Back>(h: &[u8], cont: usize, acc: &mut Acc) -> Res
         let mut r: GC<T> = rebuild(&items);
         let mut mm = m.clone();
         for (j, a) in cs.iter().enumerate() {
-            apply_both(&mut r, &mut mm, act(*a), h.len() + j, &mut ret_differs).map_err(|mut e| {
-                e.note = format!("replay law: rebuilt container under continuation [{}]: {}", render(cs), e.note);
+            apply_both(&mut r, &mut mm, (al.dec)(*a), h.len() + j, &mut ret_differs).map_err(|mut e| {
+                e.note = format!("replay law: rebuilt container under continuation [{}]: {}", render(cs, &Alpha { init: &[], ..*al }), e.note);
                 e
             })?;
         }
         let (g, w) = (drain(r), model_drain(&mm));
         if g != w {
-            return Err(mismatch(format!("{w:?}"), format!("{g:?}"), format!("{}: replay law: rebuilt container after continuation [{}], ending all groups", T::NAME, render(cs))));
+            return Err(mismatch(format!("{w:?}"), format!("{g:?}"), format!("{}: replay law: rebuilt container after continuation [{}], ending all groups", T::NAME, render(cs, &Alpha { init: &[], ..*al }))));
         }
         acc.count("replay_continuations_checked");
     }
